@@ -27,11 +27,12 @@ pub fn check() -> Check {
     Check {
         property: "C08",
         level: "exploration",
-        rule: "lock/unlock cycles over real secret key packets of every pool algorithm (primary and subkey, v4 and v6) x S2K usage {CFB(254), AEAD(253) x EAX/OCB/GCM} x cipher x S2K specifier {salted, iterated with sampled coded counts 0..255, Argon2 small, simple} x passwords {empty, ASCII, non-UTF-8, 200 bytes} with IV/nonce/salt from the RNG seam (incl. biased first octets); then store (binary or armored through sink schedules) -> parse (through source schedules) -> unlock. Wrong passwords must fail. Channel faults on the stored key: every bit of the S2K parameters, IV/nonce, protected blob and - for AEAD - of the public key fields flipped; unlocking must fail. Keys rpgp can only accept (S2K usage 255 and a legacy cipher octet) come from a legacy-peer stub (CFB via the cfb-mode/aes crates, MD5 key for the legacy octet). Non-trivial: the key was actually locked; distinct = (key, S2K parameters, password class, mutation) hash.",
+        rule: "lock/unlock cycles over real secret key packets of every pool algorithm (primary and subkey, v4 and v6) x S2K usage {CFB(254), AEAD(253) x EAX/OCB/GCM} x cipher x S2K specifier {salted, iterated with sampled coded counts 0..255, Argon2 small, simple} x passwords {empty, ASCII, non-UTF-8, 200 bytes} with IV/nonce/salt from the RNG seam (incl. biased first octets); then store (binary or armored through sink schedules) -> parse (through source schedules) -> unlock. Wrong passwords must fail. Channel faults on the stored key: every bit of the S2K parameters, IV/nonce, protected blob and - for AEAD - of the public key fields flipped; unlocking must fail. Keys rpgp can only accept (S2K usage 255 and a legacy cipher octet) come from a legacy-peer stub (CFB via the cfb-mode/aes crates, MD5 key for the legacy octet). Family foreign_peer: keys locked by another implementation - the stub derives the key with its own S2K (simple / salted / iterated, SHA-1 / SHA-256 / SHA-512, also for cipher keys longer than the digest: several hash contexts) and encrypts with AES-128/256-CFB from the aes / cfb-mode crates, usage 254 (SHA-1 check) and 255 (checksum); the right password must restore the key, a wrong one must not. Non-trivial: the key was actually locked; distinct = (key, S2K parameters, password class, mutation) hash.",
         families: vec![
             Family { name: "cycle", gen: gen_cycle, run: run_cycle },
             Family { name: "flip", gen: gen_flip, run: run_cycle },
             Family { name: "legacy_peer", gen: gen_legacy, run: run_legacy },
+            Family { name: "foreign_peer", gen: gen_foreign, run: run_foreign },
         ],
         assumptions: vec![
             "configurations the lock API refuses are skipped; once the lock API accepted a configuration, unlock with the same password must succeed",
@@ -491,4 +492,101 @@ fn run_legacy(plan: &Value, rec: &mut Rec) {
         }
     }
     let _ = (AeadAlgorithm::Ocb, SymmetricKeyAlgorithm::AES128);
+}
+
+// ------------------------------------------------------------------ keys locked by another implementation (independent S2K + CFB)
+
+fn gen_foreign(ctx: &GenCtx) -> Vec<Value> {
+    let n = ctx.n(1500, 40_000);
+    (0..n)
+        .map(|i| {
+            let mut p = Planner::new(ctx.seed, "c08.foreign", i as u64);
+            json!({"key": *p.pick(&["ed25519-v4","edlegacy-v4","p256-v4","k256-v4","rsa-v4"]), "which": *p.pick(&["primary","subkey"]),
+                   "usage": *p.pick(&[254u64, 254, 255]), "cipher": *p.pick(&["aes128", "aes256"]), "hash": *p.pick(&[2u64, 8, 10]),
+                   "kind": *p.pick(&[0u64, 1, 3, 3]), "coded": p.below(60), "pw": format!("pass phrase {}", p.below(1000)), "rng_key": p.u64(), "wrong": p.chance(1, 4)})
+        })
+        .collect()
+}
+
+fn run_foreign(plan: &Value, rec: &mut Rec) {
+    use rand::RngCore;
+    use sha1::Digest as _;
+    let pk = keys::get(jstr(plan, "key"));
+    let sub = jstr(plan, "which") == "subkey";
+    let Ok(orig) = packet_bytes(&pk.secret, sub) else { return };
+    let Ok(parts) = deframe(&orig) else { return };
+    let tag = parts[0].tag;
+    let body = &parts[0].body;
+    let pub_len = match if sub { pk.secret.secret_subkeys[0].key.public_key().to_bytes() } else { pk.secret.primary_key.public_key().to_bytes() } {
+        Ok(b) => b.len(),
+        Err(_) => return,
+    };
+    if body.get(pub_len) != Some(&0) || body.len() < pub_len + 3 {
+        rec.count("skip:not-unprotected");
+        return;
+    }
+    // unprotected v4 layout: [0][secret material][16-bit checksum]
+    let material = &body[pub_len + 1..body.len() - 2];
+    let checksum = &body[body.len() - 2..];
+    let usage = ju64(plan, "usage") as u8;
+    let (cipher_id, key_len) = if jstr(plan, "cipher") == "aes256" { (9u8, 32usize) } else { (7u8, 16usize) };
+    let (kind, hash, coded) = (ju64(plan, "kind") as u8, ju64(plan, "hash") as u8, ju64(plan, "coded") as u8);
+    let mut rng = SimRng::new(ju64(plan, "rng_key"), "foreign-peer", false);
+    let mut salt = [0u8; 8];
+    rng.fill_bytes(&mut salt);
+    let mut iv = [0u8; 16];
+    rng.fill_bytes(&mut iv);
+    let pw = jstr(plan, "pw");
+    let key = crate::model::reference_s2k(kind, hash, &salt, coded, pw.as_bytes(), key_len);
+    let mut plain = material.to_vec();
+    if usage == 254 {
+        plain.extend_from_slice(&sha1::Sha1::digest(material));
+    } else {
+        plain.extend_from_slice(checksum);
+    }
+    if key_len == 32 {
+        cfb_mode::Encryptor::<aes::Aes256>::new_from_slices(&key, &iv).unwrap().encrypt(&mut plain);
+    } else {
+        cfb_mode::Encryptor::<aes::Aes128>::new_from_slices(&key, &iv).unwrap().encrypt(&mut plain);
+    }
+    let mut new_body = body[..pub_len].to_vec();
+    new_body.push(usage);
+    new_body.push(cipher_id);
+    new_body.push(kind);
+    new_body.push(hash);
+    if kind != 0 {
+        new_body.extend_from_slice(&salt);
+    }
+    if kind == 3 {
+        new_body.push(coded);
+    }
+    new_body.extend_from_slice(&iv);
+    new_body.extend_from_slice(&plain);
+    let stream = frame(tag, &new_body, &LenForm::NewMinimal).unwrap();
+    let wrong = jbool(plan, "wrong");
+    let mut h = Fnv::default();
+    h.str(&plan.to_string());
+    rec.eval(h.0, true);
+    rec.count(&format!("fault:F-byz:foreign-lock:usage-{usage}"));
+    if key_len > match hash { 2 => 20, 10 => 64, _ => 32 } {
+        rec.count("probe:cipher-key-longer-than-the-digest");
+    }
+    rec.sample(json!({"key": pk.name, "which": jstr(plan, "which"), "usage": usage, "cipher": plan["cipher"], "s2k_kind": kind, "hash": hash, "coded_count": coded, "wrong_password": wrong}));
+    let site = format!("foreign-peer:usage-{usage}");
+    let desc = format!("{} {} locked by another implementation: usage {usage}, {} , S2K type {kind} hash {hash} coded count {coded}", pk.name, jstr(plan, "which"), jstr(plan, "cipher"));
+    let try_pw = if wrong { format!("{pw}?") } else { pw.to_string() };
+    match guard(|| unlock_packet(&stream, &Password::from(try_pw.as_str()))) {
+        Err(p) => rec.violation("panic", &norm_loc(&p.loc), format!("unlocking a key ({desc}) panicked: {}", p.msg), plan.clone()),
+        Ok(r) => match (wrong, r) {
+            // (usage 255 has only a 16-bit checksum: a wrong password passes it once in 65536 tries)
+            (true, Ok(_)) if usage == 254 => rec.violation("wrong-password-accepted", &site, format!("{desc}: a different password unlocks the key"), plan.clone()),
+            (true, _) => {}
+            (false, Err(e)) => rec.violation("right-password-rejected", &site, format!("{desc}: accepted from the wire, but the right password does not unlock it: {e}"), plan.clone()),
+            (false, Ok(b)) => {
+                if b != orig {
+                    rec.violation("key-material-differs", &site, format!("{desc}: the unlocked key differs from the original"), plan.clone());
+                }
+            }
+        },
+    }
 }
